@@ -552,6 +552,18 @@ func (c *streamCtx) dirC03C06() []genCase {
 		p.lag = rng.Intn(10) == 0
 		out = append(out, single(c.gridWorld(p), fmt.Sprintf("C03/C06 grid %+v", p)))
 	}
+	// threshold triples and removal rates that validation must refuse (the scan is still compared with the model, which
+	// follows the code's order of tests; the engine also puts each such configuration to the real validator)
+	for i, th := range [][3]int{{30, 80, 70}, {10, 96, 95}, {45, 30, 70}, {30, 70, 70}, {0, 45, 70}, {30, 30, 70}} {
+		for _, bi := range []int{3, 7, 10} {
+			p := gridP{U: 5, T: 1, min: 1, max: 9, fast: 2, slow: 1, th: th, band: bi, cpuBound: i%2 == 0, off: nsOffsets[i%3], taintAge: 10}
+			out = append(out, single(c.gridWorld(p), fmt.Sprintf("C06 invalid thresholds %v band %d", th, bi)))
+		}
+	}
+	for i, r := range [][2]int{{3, 2}, {-1, 2}, {-3, -2}} {
+		p := gridP{U: 5, T: 0, min: 1, max: 9, fast: r[1], slow: r[0], th: [3]int{30, 45, 70}, band: 4, cpuBound: true, off: nsOffsets[i%3], taintAge: 10}
+		out = append(out, single(c.gridWorld(p), fmt.Sprintf("C06 invalid rates slow=%d fast=%d", r[0], r[1])))
+	}
 	return out
 }
 
